@@ -145,6 +145,89 @@ def oracle(prog, idx):
     return fails
 
 
+def oracle_stale(prog, idx):
+    """multi-epoch histories: the moment a non-constant *leaf* that owns its memory is used as an input of a non-view
+    operation or of an in-place update (as target, as the base of the target, or as an operand), its old gradient and
+    the gradients of its views must read None.  View or not is decided from memory sharing of the result, not from
+    MyGrad's bookkeeping."""
+    ex = progs.RealExec()
+    for st in prog:
+        k = st[0]
+        refs = [x[1] for x in st[1:] if isinstance(x, list) and len(x) == 2 and x[0] == "t"]
+        if k in ("set", "aug", "outb", "outu"):
+            refs.append(st[1])
+        is_leaf = {n: (t.base is None and t.creator is None and not t.constant) for n, t in ex.v.items()}
+        r = ex.step(st)
+        if r != "ok" or k not in ("bin", "un", "sum", "take", "view", "set", "aug", "outb", "outu"):
+            continue
+        if k in ("set", "aug", "outb", "outu"):
+            # the owner of the memory that was written (a view left over from an earlier epoch becomes its own base)
+            b = ex.v[st[1]].base
+            if b is not None and ex.name_of(b).isdigit():
+                refs.append(int(ex.name_of(b)))
+        leaves = [n for n in set(refs) if is_leaf.get(n)]
+        if k == "view":
+            res = ex.v[st[1]]
+            src = ex.v.get(st[3][1]) if st[3][0] == "t" else None
+            if src is None or res.size == 0 or np.shares_memory(res.data, src.data):
+                continue  # a genuine view (or nothing to tell): the gradient persists
+        for n in leaves:
+            t = ex.v[n]
+            if t.grad is not None:
+                return [("stale-grad", f"after `{progs.to_line(st)}` used the leaf t{n} its old gradient is still readable: {np.asarray(t.grad).tolist()}")]
+            for m, v in ex.v.items():
+                if v.base is t and v.grad is not None:
+                    return [("stale-view-grad", f"after `{progs.to_line(st)}` used the leaf t{n}, the gradient of its view t{m} is still readable")]
+    return []
+
+
+def drop_case(args):
+    """a forward result the caller simply drops (an auxiliary evaluation next to the one on the path to L): after
+    L.backward() every tensor and operation of the dropped branch must be dead by reference counting alone"""
+    src, ci = args
+    if src == "layer":
+        from .c14 import layer_cases
+        name, build = layer_cases()[ci]
+        mk = lambda seed: build(np.random.default_rng([7, ci, seed]), np.float64)
+    else:
+        from .c05 import op_cases
+        name, build = op_cases()[ci]
+        mk = lambda seed: build(np.random.default_rng([7, ci, seed]))
+    fails = []
+    # warm-up (numba-compiled kernels leave cyclic garbage of their own on first use), then no cyclic GC at all
+    try:
+        _i, _o = mk(0)
+        _o.sum().backward()
+        del _i, _o
+    except Exception as e:
+        return {"name": name, "fails": [], "skipped": f"{type(e).__name__}", "args": list(args)}
+    gc.collect()
+    was = gc.isenabled()
+    gc.disable()
+    try:
+        ins1, out1 = mk(1)
+        ins2, out2 = mk(2)
+        # the caller keeps the leaves only (some builders list intermediate results among their "inputs")
+        ins1 = [t for t in ins1 if t.creator is None]
+        ins2 = [t for t in ins2 if t.creator is None]
+        objs = [o for o in graph_objects([out2]) if not any(o is t for t in ins2)]
+        refs = [(type(o).__name__, weakref.ref(o)) for o in objs]
+        del objs
+        L = out1.sum()
+        del out1, out2
+        L.backward()
+        alive = sorted({k for k, w in refs if w() is not None})
+        if alive:
+            fails.append(f"{name}: after L.backward() the dropped branch is still alive without any reference from the caller "
+                         f"({', '.join(alive)}): only a cyclic-GC pass could free it")
+        del ins1, ins2, L
+    finally:
+        if was:
+            gc.enable()
+        gc.collect()
+    return {"name": name, "fails": fails, "args": list(args)}
+
+
 def stale_case(args):
     """gradient persistence / staleness and bit-identical iteration on a small training-like step"""
     seed, k = args
@@ -211,8 +294,15 @@ def run(ctx: Ctx) -> Outcome:
     out.rule = ("random programs with views, item/augmented assignment and where=/out= targets, one backward, then the caller "
                 "drops a random subset of its handles — run with gc disabled; non-trivial = >=1 in-place update (placeholder "
                 "graphs exist); checks: upstream tensors have no creator/consumers, every graph object not strongly reachable "
-                "from kept handles is dead, no cyclic garbage; plus gradient persistence/staleness/iteration cases")
+                "from kept handles is dead, no cyclic garbage; multi-epoch histories: a leaf's gradient (and its views') reads None "
+                "the moment the leaf enters a non-view op or an in-place update; a dropped auxiliary branch of each of ~40 op/layer "
+                "families (incl. GRU, conv, pooling, batchnorm, losses) is dead after L.backward() with gc disabled; plus gradient "
+                "persistence/staleness/iteration cases")
     engcheck.report(out, results, "C07", oracle, shrinkable=False)
+    out2, results2 = engcheck.run_programs(ctx, ctx.n(1000, 6000), dict(GEN, n_stmts=ctx.n(12, 18), multi_back=True, p_view=0.35),
+                                           "oracle_stale", lambda p: sum(1 for s in p if s[0] == "back") >= 2, label="epochs:")
+    engcheck.report(out2, results2, "C07", oracle_stale)
+    out.merge(out2)
     res = pmap(stale_case, [(ctx.seed, k) for k in range(ctx.n(60, 600))])
     seen = set()
     for r in res:
@@ -222,6 +312,16 @@ def run(ctx: Ctx) -> Outcome:
             if sig not in seen:
                 seen.add(sig)
                 out.violations.append(Violation(sig, f, {"kind": "stale", "args": list(r["args"])}))
+    from .c14 import layer_cases
+    from .c05 import op_cases
+    items = [("layer", i) for i in range(len(layer_cases()))] + [("op", i) for i in range(len(op_cases()))]
+    dropped = {}
+    for r in pmap(drop_case, items):
+        out.evaluations += 1
+        dropped[r["name"]] = "skipped" if r.get("skipped") else "ok"
+        for f in r["fails"]:
+            out.violations.append(Violation(f"C07|dropped-branch-not-freed|{r['name']}", f, {"kind": "drop", "args": r["args"]}))
+    out.stats["dropped_branch_families"] = dropped
     out.assumptions = ["CPython reference counting and weakref semantics are observed, not modelled: the Lean model proves the "
                        "state rules (what backward clears, which strong edges remain); that an object without strong referrers "
                        "is freed immediately is CPython's contract"]
@@ -230,6 +330,10 @@ def run(ctx: Ctx) -> Outcome:
 
 def replay(data) -> bool:
     r = data["replay"]
+    if r.get("kind") == "drop":
+        res = drop_case(tuple(r["args"]))
+        print(res)
+        return bool(res["fails"])
     if r.get("kind") == "stale":
         res = stale_case(tuple(r["args"]))
         print(res)
@@ -237,7 +341,7 @@ def replay(data) -> bool:
     p = r["program"]
     for st in p:
         print(progs.to_line(st))
-    f = oracle(p, 0)
+    f = (oracle_stale if str(r.get("class", "")).startswith("stale-") else oracle)(p, 0)
     print("oracle:", f)
     return bool(f)
 
